@@ -147,6 +147,10 @@ def Implies(a, b):
     return mkbool(z3.Implies(bexpr(a), bexpr(b)))
 
 
+def Iff(a, b):
+    return mkbool(bexpr(a) == bexpr(b))
+
+
 # --------------------------------------------------------------------------------------
 # SymInt
 # --------------------------------------------------------------------------------------
@@ -266,6 +270,9 @@ class SymInt:
             if o > 0 and (o & (o - 1)) == 0 and self.lo >= 0:
                 k = o.bit_length() - 1
                 return mk(self.e << k, min(c), max(c), self.pm << k, self.ko << k)
+            if o > 0 and self.lo >= 0:
+                nb = max(c).bit_length() + 1
+                return mk(_narrow_apply(lambda a: a * z3.BitVecVal(o, a.size()), nb, self.e), min(c), max(c))
             return mk(self.e * bv(o), min(c), max(c))
         # symbolic x symbolic: expand over the operand with the smaller interval
         a, b = self, o
@@ -274,6 +281,8 @@ class SymInt:
         if b.hi - b.lo > 8:
             if ctx().allow_mul:
                 c = [a.lo * b.lo, a.lo * b.hi, a.hi * b.lo, a.hi * b.hi]
+                if a.lo >= 0 and b.lo >= 0:
+                    return mk(_narrow_apply(lambda x, y: x * y, max(c).bit_length() + 1, a.e, b.e), min(c), max(c))
                 return mk(a.e * b.e, min(c), max(c))
             raise Unsupported("symbolic x symbolic multiplication with wide operands")
         res = None
@@ -295,8 +304,9 @@ class SymInt:
                 return q, r
             if self.hi < d:
                 return 0, self
-            q = mk(z3.UDiv(self.e, bv(d)), self.lo // d, self.hi // d)
-            r = mk(z3.URem(self.e, bv(d)), 0, d - 1)
+            nb = max(self.hi.bit_length(), d.bit_length()) + 1
+            q = mk(_narrow_apply(lambda a: z3.UDiv(a, z3.BitVecVal(d, a.size())), nb, self.e), self.lo // d, self.hi // d)
+            r = mk(_narrow_apply(lambda a: z3.URem(a, z3.BitVecVal(d, a.size())), nb, self.e), 0, d - 1)
             return q, r
         # floor semantics for possibly negative dividend
         bd = bv(d)
@@ -314,7 +324,8 @@ class SymInt:
         if isinstance(o, int):
             return self._divmod_const(o)[0]
         if self.lo >= 0 and o.lo >= 1:
-            return mk(z3.UDiv(self.e, o.e), self.lo // o.hi, self.hi // o.lo)
+            nb = max(self.hi.bit_length(), o.hi.bit_length()) + 1
+            return mk(_narrow_apply(z3.UDiv, nb, self.e, o.e), self.lo // o.hi, self.hi // o.lo)
         raise Unsupported("symbolic floor division with possibly non-positive operands")
 
     def __rfloordiv__(self, o):
@@ -330,7 +341,8 @@ class SymInt:
         if isinstance(o, int):
             return self._divmod_const(o)[1]
         if self.lo >= 0 and o.lo >= 1:
-            return mk(z3.URem(self.e, o.e), 0, min(self.hi, o.hi - 1))
+            nb = max(self.hi.bit_length(), o.hi.bit_length()) + 1
+            return mk(_narrow_apply(z3.URem, nb, self.e, o.e), 0, min(self.hi, o.hi - 1))
         raise Unsupported("symbolic modulo with possibly non-positive operands")
 
     def __rmod__(self, o):
@@ -568,6 +580,17 @@ class SymInt:
         if o is self:
             return False
         return self._cmp(o, "ne")
+
+
+def _narrow_apply(fn, lo_bits, *es):
+    """Apply a z3 bit-vector operation on operands narrowed to `lo_bits` bits (all operands
+    and the result are known to be non-negative and to fit), then zero-extend back."""
+    w = ctx().width
+    nb = max(1, lo_bits)
+    if nb >= w - 1:
+        return fn(*es)
+    ns = [z3.Extract(nb - 1, 0, e) for e in es]
+    return z3.ZeroExt(w - nb, fn(*ns))
 
 
 def coerce(o):
@@ -976,7 +999,7 @@ class Result:
 
 def explore(harness, params=None, width=DEFAULT_WIDTH, max_paths=200000, max_decisions=200000,
             query_timeout_ms=120000, seed=0, pins=None, allow_mul=False, tactic=None,
-            stop_on_cex=4, time_budget=None, setup=None):
+            stop_on_cex=4, time_budget=None, setup=None, logic="QF_BV"):
     """Run `harness(ctx, **params)` once per feasible decision sequence (DFS)."""
     global _CTX
     params = params or {}
@@ -1001,7 +1024,7 @@ def explore(harness, params=None, width=DEFAULT_WIDTH, max_paths=200000, max_dec
             prefix = work.pop()
             fr = Frame(prefix, True)
             c.frames = [fr]
-            c.solver = z3.Solver()
+            c.solver = z3.SolverFor(logic) if logic else z3.Solver()
             c.solver.set("timeout", query_timeout_ms)
             c.inputs = {}
             c.input_order = []
